@@ -166,7 +166,7 @@ class Fact:
         self.kind, self.node = kind, node
         self.func = ctx.func
         self.qname = ctx.qname
-        self.root = ctx.stack[0] if ctx.stack else ctx.qname      # the function whose analysis reached this (through inlined helpers)
+        self.root = (ctx.stack[0][:-6] if ctx.stack[0].endswith("@entry") else ctx.stack[0]) if ctx.stack else ctx.qname      # the function whose analysis reached this (through inlined helpers / its decorators)
         self.path = env.get("$path", ()) if env is not None else ()
         self.loops = env.get("$loops", ()) if env is not None else ()
         self.order = kw.pop("order", 0)
@@ -432,7 +432,7 @@ class Sym(Interp):
         # compositional: a decorated function that is not inlined stays the uninterpreted call `f(args)` for its callers (its own
         # obligations - including what the decorator does - are decided where it is analysed as an entry point)
         from .core import DECORATED_ENTRIES
-        if self._entry_bind != func.qname and not self.inline(func) and func.qname not in self.force_interpret:
+        if self._entry_bind != func.qname and (not self.inline(func) or func.qname in ctx.stack):
             return self.call_repo_raw(func, selfobj, args, kwargs, n, env, ctx)
         return super().call_decorated(func, selfobj, args, kwargs, n, env, ctx)
 
